@@ -1,18 +1,24 @@
 (* C06 -- Word-level instruction semantics are exact and total.
    Statements only; every proof is `exact <lemma from Proofs/BitVecProofs.v>`.
    Model/BitVecModel.v follows src/halmos/bitvec.py and the dispatch layer of src/halmos/sevm.py
-   branch by branch; its guards, constants, is_power_of_two and to_signed are Gen/GenBitvecGuards.v,
-   regenerated from bitvec.py on every run.  The spec side is Base/Word.v.
+   branch by branch; its guards, constants, is_power_of_two, to_signed and every concrete-path return
+   expression (value r_.., divisors rd_.., work rw_..) are Gen/GenBitvecGuards.v, regenerated from
+   bitvec.py on every run.  The spec side is Base/Word.v.
 
    Reading guide.  [run2 sebc OP a b] is the opcode arm of SEVM.run for a binary instruction with
-   `a` on top of the stack (sebc = options.smt_exp_by_const), [run1], [run3] likewise.  A stack
+   `a` on top of the stack (sebc = options.smt_exp_by_const), [run1], [run3] likewise: the arm body
+   regenerated from sevm.py on every run (Gen/GenWordOps.v: accessors pop/popi/top/topi, evaluation
+   order, receiver / arguments / abstraction functions of the method call, set_top / push; SEVM.arith;
+   bitwise()) executed by the interpreter [exec_arm] of Model/BitVecModel.v on the stack [a; b];
+   [run2s .. rest] is the same on the stack a :: b :: rest.  A stack
    word [val] is an int-backed / term-backed HalmosBitVec or a concrete / symbolic HalmosBool;
    the theorems quantify over all four representations of every operand, over every valuation
    (ev, eb) of the z3 variables, and over all operand values in [0, 2^256).  [denote] reads a
    z3 term by SMT-LIB semantics (Base/SmtBV.v) with the f_evm_* abstractions given their exact
    definitions.  `exists r, run.. = Ok r` is totality: no internal exception. *)
 From Coq Require Import ZArith List Bool.
-From HV Require Import Base.Word Base.SmtBV Gen.GenBitvecGuards Model.BitVecModel Proofs.BitVecProofs.
+From HV Require Import Base.Word Base.SmtBV Model.PyInt Model.WordOpsIR Gen.GenBitvecGuards Gen.GenWordOps
+  Model.BitVecModel Proofs.BitVecProofs.
 Import ListNotations.
 Open Scope Z_scope.
 
@@ -61,7 +67,7 @@ Theorem C06_SMOD : forall ev eb sebc a b,
 Proof. exact P_SMOD. Qed.
 Print Assumptions C06_SMOD.
 
-(* concrete lhs**rhs, repeated multiplication up to smt_exp_by_const, or f_evm_exp_256 (exact): all equal modular exponentiation *)
+(* concrete pow(lhs, rhs, 1 << size), repeated multiplication up to smt_exp_by_const, or f_evm_exp_256 (exact): all equal modular exponentiation *)
 Theorem C06_EXP : forall ev eb sebc a b,
   in_word (denote ev eb a) -> in_word (denote ev eb b) ->
   exists r, run2 sebc EXP a b = Ok r /\ denote ev eb r = evm_exp (denote ev eb a) (denote ev eb b).
@@ -155,7 +161,7 @@ Print Assumptions C06_SIGNEXTEND.
 (* ... a symbolic index is rejected (NotConcreteError, by design), never answered wrongly *)
 Theorem C06_SIGNEXTEND_symbolic_index_rejected : forall sebc a b t,
   popi a = Sv t -> run2 sebc SIGNEXTEND a b = Err ENotConcrete.
-Proof. exact run_signextend_symbolic. Qed.
+Proof. exact P_SIGNEXTEND_symbolic. Qed.
 Print Assumptions C06_SIGNEXTEND_symbolic_index_rejected.
 
 (* totality of every binary instruction, in every mix of operand representations *)
@@ -172,59 +178,52 @@ Theorem C06_ISZERO : forall ev eb a, in_word (denote ev eb a) ->
 Proof. exact P_ISZERO. Qed.
 Print Assumptions C06_ISZERO.
 
-(* NOT is exact on a HalmosBitVec-typed top ... *)
-Theorem C06_NOT_partial : forall ev eb x, in_word (bv_den ev eb x) ->
-  exists r, run1 NOT (VBV x) = Ok r /\ denote ev eb r = evm_not (bv_den ev eb x).
-Proof. exact P_NOT_bv. Qed.
-Print Assumptions C06_NOT_partial.
+(* NOT acts on state.topi(): the 256-bit complement for every representation of the operand,
+   Bool-typed tops (ISZERO;NOT, LT;NOT, ...) included *)
+Theorem C06_NOT : forall ev eb a, in_word (denote ev eb a) ->
+  exists r, run1 NOT a = Ok r /\ denote ev eb r = evm_not (denote ev eb a).
+Proof. exact P_NOT. Qed.
+Print Assumptions C06_NOT.
 
-(* ... but the full statement is FALSE of the faithful model (defect F1): on a Bool-typed top
-   (ISZERO;NOT, LT;NOT, ...) HalmosBool.bitwise_not is logical negation *)
-Theorem C06_NOT_refuted :
-  ~ (forall ev eb a, in_word (denote ev eb a) ->
-       exists r, run1 NOT a = Ok r /\ denote ev eb r = evm_not (denote ev eb a)).
-Proof. exact P_NOT_refuted. Qed.
-Print Assumptions C06_NOT_refuted.
-
-(* what NOT computes on a Bool-typed top: 0/1 instead of 2^256-1 / 2^256-2 *)
+(* on a Bool-typed top the result is 2^256-1 / 2^256-2, not the logical negation 0 / 1 *)
 Theorem C06_NOT_bool_value : forall ev eb p,
-  run1 NOT (VBool p) = Ok (VBool (bl_not p)) /\
-  denote ev eb (VBool (bl_not p)) = b2w (negb (bl_den ev eb p)) /\
-  evm_not (denote ev eb (VBool p)) = W - 1 - b2w (bl_den ev eb p).
-Proof. exact not_bool_wrong. Qed.
+  exists r, run1 NOT (VBool p) = Ok r /\ denote ev eb r = W - 1 - b2w (bl_den ev eb p).
+Proof. exact P_NOT_bool. Qed.
 Print Assumptions C06_NOT_bool_value.
 
-(* ADDMOD / MULMOD: exact (264- / 512-bit widening never wraps, modulus 0 gives 0) unless all three
-   operands are concrete and the modulus is 0 ... *)
-Theorem C06_ADDMOD_partial : forall ev eb a b c,
+Theorem C06_total_unary : forall ev eb o a, in_word (denote ev eb a) -> exists r, run1 o a = Ok r.
+Proof. exact P_total1. Qed.
+Print Assumptions C06_total_unary.
+
+(* ADDMOD / MULMOD: exact in every mix of representations (264- / 512-bit widening never wraps,
+   modulus 0 gives 0 - also when all three operands are concrete: the `modulus.value == 0` guard
+   answers before Python's `%` is reached) *)
+Theorem C06_ADDMOD : forall ev eb a b c,
   in_word (denote ev eb a) -> in_word (denote ev eb b) -> in_word (denote ev eb c) ->
-  (match popi a, popi b, popi c with Cv _, Cv _, Cv z => z =? 0 | _, _, _ => false end) = false ->
   exists r, run3 ADDMOD a b c = Ok r /\
     denote ev eb r = evm_addmod (denote ev eb a) (denote ev eb b) (denote ev eb c).
 Proof. exact P_ADDMOD. Qed.
-Print Assumptions C06_ADDMOD_partial.
+Print Assumptions C06_ADDMOD.
 
-Theorem C06_MULMOD_partial : forall ev eb a b c,
+Theorem C06_MULMOD : forall ev eb a b c,
   in_word (denote ev eb a) -> in_word (denote ev eb b) -> in_word (denote ev eb c) ->
-  (match popi a, popi b, popi c with Cv _, Cv _, Cv z => z =? 0 | _, _, _ => false end) = false ->
   exists r, run3 MULMOD a b c = Ok r /\
     denote ev eb r = evm_mulmod (denote ev eb a) (denote ev eb b) (denote ev eb c).
 Proof. exact P_MULMOD. Qed.
-Print Assumptions C06_MULMOD_partial.
+Print Assumptions C06_MULMOD.
 
-(* ... in which case Python's (a+b) % 0 raises ZeroDivisionError (defect F15): totality is FALSE *)
-Theorem C06_modzero_crash : forall o a b c,
-  (match popi a, popi b, popi c with Cv _, Cv _, Cv z => z =? 0 | _, _, _ => false end) = true ->
-  run3 o a b c = Err EZeroDivision.
-Proof. exact P_modzero_crash. Qed.
-Print Assumptions C06_modzero_crash.
+Theorem C06_modzero_concrete : forall o a b c x y,
+  popi a = Cv x -> popi b = Cv y -> popi c = Cv 0 -> run3 o a b c = Ok (VBV (Cv 0)).
+Proof. exact P_modzero. Qed.
+Print Assumptions C06_modzero_concrete.
 
-Theorem C06_total_ADDMOD_MULMOD_refuted : forall o,
-  ~ (forall ev eb a b c,
-       in_word (denote ev eb a) -> in_word (denote ev eb b) -> in_word (denote ev eb c) ->
-       exists r, run3 o a b c = Ok r).
-Proof. exact P_modzero_refuted. Qed.
-Print Assumptions C06_total_ADDMOD_MULMOD_refuted.
+(* totality of the ternary instructions: no ZeroDivisionError (or any other internal exception)
+   for any operands in any representation *)
+Theorem C06_total_ADDMOD_MULMOD : forall ev eb o a b c,
+  in_word (denote ev eb a) -> in_word (denote ev eb b) -> in_word (denote ev eb c) ->
+  exists r, run3 o a b c = Ok r.
+Proof. exact P_total3. Qed.
+Print Assumptions C06_total_ADDMOD_MULMOD.
 
 (* concrete fast paths agree with the symbolic path: the denotation of the result depends only on
    the denotations of the operands, never on their representation *)
@@ -244,32 +243,73 @@ Theorem C06_fast_agree3 : forall ev eb o a b c a' b' c' r r',
 Proof. exact P_fast_agree3. Qed.
 Print Assumptions C06_fast_agree3.
 
-(* promptness of concrete EXP is FALSE (defect F2): for a = 2, e = 2^64 the model takes the path
-   that materialises the unreduced integer a ^ e, which has more than 2^64 bits *)
-Theorem C06_prompt_EXP_refuted :
-  exists a e, 0 <= a < 2 ^ 256 /\ 0 <= e < 2 ^ 256 /\
-    bv_exp 256 true true 2 (Cv a) (Cv e) = Ok (mk_int 256 (a ^ e)) /\
-    2 ^ 64 <= Z.log2 (a ^ e).
-Proof. exact exp_not_prompt. Qed.
-Print Assumptions C06_prompt_EXP_refuted.
+(* promptness of concrete EXP: the all-concrete path that is not answered by a guard evaluates the
+   regenerated return expression pow(lhs, rhs, 1 << size); its work measure (bits of the largest
+   integer CPython materialises, rules in Model/PyInt.v) is at most 2 * 256 + 2 for ALL operands -
+   with the unreduced lhs ** rhs the measure is rhs * bits(lhs) and this statement is false *)
+Theorem C06_prompt_EXP : forall a e, 0 <= a < 2 ^ 256 -> 0 <= e < 2 ^ 256 ->
+  exp_work 256 (Cv a) (Cv e) <= 514 /\
+  exists r, bv_exp 256 (Some Fexp) (Some Fmul) 2 (Cv a) (Cv e) = Ok r /\ bv_den (fun _ => 0) (fun _ => false) r = (a ^ e) mod 2 ^ 256.
+Proof. exact P_prompt_EXP. Qed.
+Print Assumptions C06_prompt_EXP.
 
-(* the work measure reported by the extracted model is a lower bound of that bit size *)
-Theorem C06_exp_work : forall x y, 1 < x -> 1 < y ->
-  exp_work (Cv x) (Cv y) = y * Z.log2 x /\ exp_work (Cv x) (Cv y) <= Z.log2 (x ^ y).
-Proof. exact exp_work_lower. Qed.
-Print Assumptions C06_exp_work.
+(* the same for every concrete-path return expression of bitvec.py, at every size n: none
+   materialises an integer of more than 2n + 2 bits (shifts: under the generated guard
+   `shift_amount >= size` being false) *)
+Theorem C06_prompt_concrete : forall n x y z k, 0 < n ->
+  0 <= x < 2 ^ n -> 0 <= y < 2 ^ n -> 0 <= z < 2 ^ n -> 0 <= k < 2 ^ n -> g_lshl_2 k n = false ->
+  rw_add_1 y x <= n + 1 /\ rw_sub_1 y x <= n + 1 /\ rw_mul_1 x y <= 2 * n /\
+  rw_div_1 x y <= n /\ rw_mod_1 x y <= n /\ rw_exp_1 x y n <= 2 * n + 2 /\
+  rw_addmod_1 z y x <= n + 1 /\ rw_mulmod_1 z y x <= 2 * n /\
+  rw_lshl_1 x k <= 2 * n /\ rw_lshr_1 x y <= n /\ rw_bitwise_not_1 n x <= n + 2 /\
+  rw_bitwise_and_1 y x <= n /\ rw_bitwise_or_1 y x <= n /\ rw_bitwise_xor_1 y x <= n.
+Proof. exact conc_work_bounded. Qed.
+Print Assumptions C06_prompt_concrete.
+
+(* Python's three-argument pow as modelled (right-to-left binary, reduced after every product) is
+   modular exponentiation *)
+Theorem C06_py_pow3 : forall a e m, 0 < m -> 0 <= e -> py_pow3 a e m = (a ^ e) mod m.
+Proof. exact (py_pow3_spec (fun _ => 0) (fun _ => false)). Qed.
+Print Assumptions C06_py_pow3.
+
+(* stack discipline: on a stack a :: b :: rest (a :: rest, a :: b :: c :: rest) the instruction
+   consumes exactly its operands and leaves exactly one word on the untouched rest; result, errors and
+   the path constraints appended do not depend on the rest *)
+Theorem C06_stack_frame2 : forall sebc o a b rest,
+  match run2s sebc o a b rest with
+  | Ok s => exists r, run2 sebc o a b = Ok r /\ stk s = r :: rest /\ pth s = arith_axioms sebc o a b
+  | Err e => run2 sebc o a b = Err e
+  end.
+Proof. exact P_frame2. Qed.
+Print Assumptions C06_stack_frame2.
+
+Theorem C06_stack_frame1 : forall o a rest,
+  match run1s o a rest with
+  | Ok s => exists r, run1 o a = Ok r /\ stk s = r :: rest /\ pth s = []
+  | Err e => run1 o a = Err e
+  end.
+Proof. exact P_frame1. Qed.
+Print Assumptions C06_stack_frame1.
+
+Theorem C06_stack_frame3 : forall o a b c rest,
+  match run3s o a b c rest with
+  | Ok s => exists r, run3 o a b c = Ok r /\ stk s = r :: rest /\ pth s = []
+  | Err e => run3 o a b c = Err e
+  end.
+Proof. exact P_frame3. Qed.
+Print Assumptions C06_stack_frame3.
 
 (* the constraints SEVM.arith appends next to a symbolic DIV / MOD result are valid under the
    exact definitions of the abstractions (they never cut off a real behaviour) *)
-Theorem C06_axioms_valid : forall ev eb o a b c,
+Theorem C06_axioms_valid : forall ev eb sebc o a b c,
   in_word (denote ev eb a) -> in_word (denote ev eb b) ->
-  In c (arith_axioms o a b) -> beval ev eb c = true.
+  In c (arith_axioms sebc o a b) -> beval ev eb c = true.
 Proof. exact P_axioms. Qed.
 Print Assumptions C06_axioms_valid.
 
 (* size-generic method lemmas (HalmosBitVec at any size n; these back the 264- / 512-bit widening
    and the exhaustive size-8 correspondence run) *)
-Theorem C06_method_mul : forall ev eb n abs a b, 0 < n ->
+Theorem C06_method_mul : forall ev eb n abs a b, abs = Some Fmul \/ abs = None -> 0 < n ->
   0 <= bv_den ev eb a < 2 ^ n -> 0 <= bv_den ev eb b < 2 ^ n ->
   bv_den ev eb (bv_mul n abs a b) = (bv_den ev eb a * bv_den ev eb b) mod 2 ^ n.
 Proof. exact bv_mul_den. Qed.
@@ -277,13 +317,15 @@ Print Assumptions C06_method_mul.
 
 Theorem C06_method_div : forall ev eb n a b, 0 < n ->
   0 <= bv_den ev eb a < 2 ^ n -> 0 <= bv_den ev eb b < 2 ^ n ->
-  bv_den ev eb (bv_div n true a b) = if bv_den ev eb b =? 0 then 0 else bv_den ev eb a / bv_den ev eb b.
+  exists r, bv_div n (Some Fudiv) a b = Ok r /\
+    bv_den ev eb r = if bv_den ev eb b =? 0 then 0 else bv_den ev eb a / bv_den ev eb b.
 Proof. exact bv_div_den. Qed.
 Print Assumptions C06_method_div.
 
 Theorem C06_method_mod : forall ev eb n a b, 0 < n ->
   0 <= bv_den ev eb a < 2 ^ n -> 0 <= bv_den ev eb b < 2 ^ n ->
-  bv_den ev eb (bv_mod n true a b) = if bv_den ev eb b =? 0 then 0 else bv_den ev eb a mod bv_den ev eb b.
+  exists r, bv_mod n (Some Furem) a b = Ok r /\
+    bv_den ev eb r = if bv_den ev eb b =? 0 then 0 else bv_den ev eb a mod bv_den ev eb b.
 Proof. exact bv_mod_den. Qed.
 Print Assumptions C06_method_mod.
 
@@ -301,7 +343,7 @@ Print Assumptions C06_method_lshr.
 
 Theorem C06_method_sdiv : forall ev eb n a b, 1 < n ->
   0 <= bv_den ev eb a < 2 ^ n -> 0 <= bv_den ev eb b < 2 ^ n ->
-  exists r, bv_sdiv n true a b = Ok r /\
+  exists r, bv_sdiv n (Some Fsdiv) a b = Ok r /\
     bv_den ev eb r = if bv_den ev eb b =? 0 then 0
                      else (Z.quot (bvsigned n (bv_den ev eb a)) (bvsigned n (bv_den ev eb b))) mod 2 ^ n.
 Proof. exact bv_sdiv_den. Qed.
@@ -309,8 +351,9 @@ Print Assumptions C06_method_sdiv.
 
 (* with abstraction=None (never passed by sevm.py) the methods are NOT exact: latent *)
 Theorem C06_method_div_noabs_refuted :
-  exists ev eb a b, 0 <= bv_den ev eb a < 2 ^ 256 /\ 0 <= bv_den ev eb b < 2 ^ 256 /\
-    bv_den ev eb (bv_div 256 false a b) <> evm_div (bv_den ev eb a) (bv_den ev eb b).
+  exists ev eb a b r, 0 <= bv_den ev eb a < 2 ^ 256 /\ 0 <= bv_den ev eb b < 2 ^ 256 /\
+    bv_div 256 None a b = Ok r /\
+    bv_den ev eb r <> evm_div (bv_den ev eb a) (bv_den ev eb b).
 Proof. exact div_noabs_latent. Qed.
 Print Assumptions C06_method_div_noabs_refuted.
 
@@ -329,7 +372,7 @@ Theorem C06_evm_exp_math : forall a e, 0 <= e -> evm_exp a e = evm_exp_math a e.
 Proof. exact (evm_exp_math_eq (fun _ => 0) (fun _ => false)). Qed.
 Print Assumptions C06_evm_exp_math.
 
-(* non-vacuity: reachable, non-trivial instances of the hypotheses and of each defect *)
+(* non-vacuity: reachable, non-trivial instances of the hypotheses and of each repaired defect *)
 Example C06_nonvacuous :
   let ev := fun _ : Z => 2 ^ 255 + 3 in
   let eb := fun _ : Z => true in
@@ -339,7 +382,9 @@ Example C06_nonvacuous :
   run2 2 SDIV (VBV (Cv (2 ^ 255))) (VBV (Cv (2 ^ 256 - 1))) = Ok (VBV (Cv (2 ^ 255))) /\
   run2 2 EQ (VBool (BS (BVar 0))) (VBV (Cv 1)) =
     Ok (VBool (BS (BEq (TIte (BVar 0) (TConst 256 1) (TConst 256 0)) (TConst 256 1)))) /\
-  run1 NOT (VBool (BC true)) = Ok (VBool (BC false)) /\
-  run3 ADDMOD (VBV (Cv 5)) (VBV (Cv 6)) (VBV (Cv 0)) = Err EZeroDivision /\
-  run3 ADDMOD (VBV (Sv (TVar 0))) (VBV (Cv 6)) (VBV (Cv 0)) = Ok (VBV (Cv 0)).
+  run1 NOT (VBool (BC true)) = Ok (VBV (Cv (2 ^ 256 - 2))) /\
+  run3 ADDMOD (VBV (Cv 5)) (VBV (Cv 6)) (VBV (Cv 0)) = Ok (VBV (Cv 0)) /\
+  run3 ADDMOD (VBV (Sv (TVar 0))) (VBV (Cv 6)) (VBV (Cv 0)) = Ok (VBV (Cv 0)) /\
+  run2 2 EXP (VBV (Cv 3)) (VBV (Cv 1000)) = Ok (VBV (Cv (3 ^ 1000 mod 2 ^ 256))) /\
+  exp_work 256 (Cv 3) (Cv (2 ^ 200 + 5)) = 514.
 Proof. cbv zeta. repeat split; vm_compute; try reflexivity; discriminate. Qed.
